@@ -7,14 +7,18 @@ From GMS Require Import Store.C17Txn.
 Inductive crow := KV (k v : Z).
 Inductive cq :=
 | QRead (t : N) | QIns (t : N) (kvs : list crow) | QUpdAll (t : N) (d : Z) | QUpdKey (t : N) (k v : Z)
-| QDelKey (t : N) (k : Z) | QDelGe (t : N) (k : Z) | QDelAll (t : N) | QTrunc (t : N) | QBegin | QCommit | QRollback | QSetAC (b : bool) | QBad.
-Inductive cr := OOk | OErr | ORows (l : list crow).
+| QDelKey (t : N) (k : Z) | QDelGe (t : N) (k : Z) | QDelAll (t : N) | QTrunc (t : N) | QBegin | QCommit | QRollback | QSetAC (b : bool) | QBad
+| QBeginRO | QSp | QDdl (ts : list N)
+| QJoinRead (a b : N) | QUpdJoin (a b : N) (da db : Z) | QInsSel (a b : N) (dk : Z) | QDelJoin (a b : N) (k : Z).
+(* OSame: an observer read (session 0) that returned the same rows as the observer's previous read of that table (or, for
+   its first read, the initial contents) - keeps the case literals small, compared at full strength *)
+Inductive cr := OOk | OErr | ORows (l : list crow) | OSame.
 Inductive ev := Ev (s : N) (q : cq) (r : cr).
-(* initial contents of tables 0 and 1, then the history: session, statement, observed result, in execution order *)
-Inductive case := Case (t0 t1 : list crow) (h : list ev).
+(* initial contents of tables 0, 1, 2, ..., then the history: session, statement, observed result, in execution order *)
+Inductive case := Case (ts : list (list crow)) (h : list ev).
 
 Definition row_of (r : crow) : Z * Z := match r with KV k v => (k, v) end.
-Definition stmt_of_cq (q : cq) : stmt cwop :=
+Definition stmt_of_cq (q : cq) : stmt cwop cmop :=
   match q with
   | QRead t => Read t
   | QIns t kvs => Write t (Ins (map row_of kvs))
@@ -29,9 +33,29 @@ Definition stmt_of_cq (q : cq) : stmt cwop :=
   | QRollback => Rollback
   | QSetAC b => SetAC b
   | QBad => Bad
+  | QBeginRO => BeginRO
+  | QSp => Savepoint
+  | QDdl ts => Ddl ts
+  | QJoinRead a b => Multi (MJoinRead a b)
+  | QUpdJoin a b da db => Multi (MUpdJoin a b da db)
+  | QInsSel a b dk => Multi (MInsSel a b dk)
+  | QDelJoin a b k => Multi (MDelJoin a b k)
   end.
 Definition res_of_cr (r : cr) : result rows :=
-  match r with OOk => ROk | OErr => RErr | ORows l => RRows (map row_of l) end.
+  match r with OOk => ROk | OErr | OSame => RErr | ORows l => RRows (map row_of l) end.
+
+(* the observed results with OSame resolved *)
+Fixpoint observed (last : N -> list crow) (h : list ev) : list (result rows) :=
+  match h with
+  | [] => []
+  | Ev s q r :: h' =>
+      match q, r with
+      | QRead t, OSame => RRows (map row_of (last t)) :: observed last h'
+      | QRead t, ORows l =>
+          RRows (map row_of l) :: observed (if N.eqb s 0 then (fun t' => if N.eqb t' t then l else last t') else last) h'
+      | _, _ => res_of_cr r :: observed last h'
+      end
+  end.
 
 Fixpoint rows_eqb (a b : rows) : bool :=
   match a, b with
@@ -55,14 +79,14 @@ Fixpoint results_eqb (a b : list (result rows)) : bool :=
   | _, _ => false
   end.
 
-Definition tables (t0 t1 : list crow) (t : N) : rows :=
-  if N.eqb t 0 then map row_of t0 else if N.eqb t 1 then map row_of t1 else [].
+Definition tables (ts : list (list crow)) (t : N) : rows :=
+  map row_of (nth (N.to_nat t) ts []).
 
 Definition ok (c : case) : bool :=
-  let '(Case t0 t1 h) := c in
-  let '(_, rs) := run capply (init (tables t0 t1))
+  let '(Case ts h) := c in
+  let '(_, rs) := crun (init (tables ts))
                       (map (fun e => match e with Ev s q _ => (s, stmt_of_cq q) end) h) in
-  results_eqb rs (map (fun e => match e with Ev _ _ r => res_of_cr r end) h).
+  results_eqb rs (observed (fun t => nth (N.to_nat t) ts []) h).
 
 Definition mismatches (cs : list (N * case)) : list N :=
   map fst (filter (fun p => negb (ok (snd p))) cs).
